@@ -101,7 +101,7 @@ class DG:
             lambda: "(custom %s)" % hexs(r.choice(["citext", "my type", 'T"y', "geometry(Point, 4326)"] if self.hostile
                                                   else ["citext", "geometry", "tsvector"])),
             lambda: "(enum %s%s)" % (hexs(r.choice(["mood", 'fo"nt', "sch.ty"] if self.hostile else ["mood", "font"])),
-                                     "".join(" " + hexs(self.text()) for _ in range(r.randrange(0, 4)))),
+                                     "".join(" " + hexs(self.text()) for _ in range(r.randrange(0 if self.hostile else 1, 4)))),
         ]
         if depth > 0:
             forms.append(lambda: "(array %s)" % self.coltype(depth - 1))
@@ -349,3 +349,261 @@ def corr_cases(rng, n):
         b = rng.choice(["my", "pg", "sl"])
         lines.append("ddl %s %s" % (b, DG(rng, b, hostile=True).statement()))
     return lines
+
+
+class WG(DG):
+    """well-formed declarations for the C14 reader oracle: every construct is one the dialect b (my | pg) can express,
+    raw-text parts are benign, and each statement is complete (named tables, at least one column in a key, ...)"""
+
+    def __init__(self, rng, b):
+        DG.__init__(self, rng, b, hostile=False, careful=True)
+
+    def wexpr(self):
+        """expressions for CHECK / GENERATED / USING / WHERE: the parseable subset, no sub-queries"""
+        return self.eg.expr()
+
+    def default(self):
+        r = self.r
+        k = r.random()
+        if k < 0.5:
+            return "(val %s)" % self.eg.value()
+        if k < 0.7:
+            return "(kw %s)" % r.choice(["null", "cdate", "ctime", "cts"])
+        if k < 0.8:
+            return "(val i:i32:%d)" % r.choice([-1, -128, 0, 7])
+        if k < 0.83 and self.b == "my":
+            # a computed default without the builder's parenthesised form (MySQL requires DEFAULT (expr))
+            return "(bin add (val i:i32:1) (val i:i32:2))"
+        return "(tuple %s)" % self.wexpr()
+
+    def spec(self, kind=None):
+        r = self.r
+        kind = kind or r.choice(self.SPEC_KINDS)
+        if kind == "default":
+            return "(default %s)" % self.default()
+        if kind in ("check", "using"):
+            return "(%s %s)" % (kind, self.wexpr())
+        if kind == "generated":
+            return "(generated %s %s)" % (self.wexpr(), r.choice(["stored", "virtual"]))
+        return DG.spec(self, kind)
+
+    def coldef(self, max_specs=5, no_extra=False):
+        r = self.r
+        for _ in range(100):
+            cd = DG.coldef(self, max_specs)
+            typeless = cd.split(" ")[2].rstrip(")") == "-"
+            if "(extra " in cd and (no_extra or typeless):
+                continue
+            return cd
+        return "(cd %s int)" % self.ident()
+
+    def cols(self, table_level, n=None):
+        r = self.r
+        out = []
+        for _ in range(n or r.choice([1, 1, 1, 2, 3])):
+            prefix = str(r.choice([1, 10, 255])) if self.b == "my" and r.random() < 0.2 else "-"
+            order = r.choice(["-", "-", "asc", "desc"]) if not (self.b == "pg" and table_level) else "-"
+            out.append("(col %s %s %s)" % (self.ident(), prefix, order))
+        return out
+
+    def index_clauses(self, top_level, kind=None):
+        r = self.r
+        cl = []
+        if top_level or r.random() < 0.7:
+            cl.append("(name %s)" % self.ident())
+        if top_level:
+            cl.append("(table %s)" % self.tref(kind="index"))
+        cl += self.cols(not top_level)
+        kinds = ["unique", "unique", "plain"] if top_level else ["primary", "unique", "unique", "plain" if self.b == "my" or r.random() < 0.15 else "unique"]
+        kind = kind or r.choice(kinds)
+        if kind != "plain":
+            cl.append("(%s)" % kind)
+        if self.b == "my":
+            if kind == "plain" and top_level is not None and r.random() < 0.2:
+                cl.append("(fulltext)")
+            elif r.random() < 0.25:
+                cl.append("(itype %s)" % r.choice(["btree", "hash"]))
+        else:
+            if top_level and r.random() < 0.3:
+                cl.append("(itype %s)" % r.choice(["btree", "hash", "fulltext", "(custom %s)" % hexs(r.choice(["gist", "brin"]))]))
+            if kind == "unique" and r.random() < 0.2:
+                cl.append("(nnd)")
+            for _ in range(r.choice([0, 0, 1, 2])):
+                cl.append("(include %s)" % self.ident())
+            if top_level and r.random() < 0.3:
+                cl.append("(ifnotexists)")
+            if top_level and r.random() < 0.35:
+                cl.append("(andwhere %s)" % self.wexpr())
+                if r.random() < 0.3:
+                    cl.append("(andwhere %s)" % self.wexpr())
+        if r.random() < 0.4:
+            r.shuffle(cl)
+        return cl
+
+    def fk_clauses(self, need_from=False):
+        r = self.r
+        cl = []
+        if r.random() < 0.75:
+            cl.append("(name %s)" % self.ident())
+        if need_from or r.random() < 0.5:
+            cl.append("(fromtbl %s)" % self.tref(kind="fk"))
+        cl.append("(totbl %s)" % self.tref(kind="fk"))
+        n = r.choice([1, 1, 1, 2, 3])
+        for _ in range(n):
+            cl.append("(fromcol %s)" % self.ident())
+        for _ in range(n):
+            cl.append("(tocol %s)" % self.ident())
+        if r.random() < 0.5:
+            cl.append("(ondelete %s)" % r.choice(FK_ACTIONS))
+        if r.random() < 0.5:
+            cl.append("(onupdate %s)" % r.choice(FK_ACTIONS))
+        if r.random() < 0.3:
+            r.shuffle(cl)
+        return cl
+
+    def tcreate(self):
+        r = self.r
+        cl = ["(table %s)" % self.tref()]
+        for kw, p in (("ifnotexists", 0.3), ("temporary", 0.15)):
+            if r.random() < p:
+                cl.append("(%s)" % kw)
+        if r.random() < 0.25:
+            cl.append("(comment %s)" % hexs(self.text()))
+        if self.b == "my":
+            for kw, vals in (("engine", ["InnoDB", "MyISAM"]), ("collate", ["utf8mb4_unicode_ci"]), ("charset", ["utf8mb4", "latin1"])):
+                if r.random() < 0.25:
+                    cl.append("(%s %s)" % (kw, hexs(r.choice(vals))))
+            if r.random() < 0.1:
+                cl.append("(extra %s)" % hexs("ROW_FORMAT=DYNAMIC"))
+        elif r.random() < 0.1:
+            cl.append("(extra %s)" % hexs(r.choice(["WITH (fillfactor=70)", "TABLESPACE fast"])))
+        for _ in range(r.choice([1, 1, 2, 2, 3, 4])):
+            cl.append("(col %s)" % self.coldef())
+        for _ in range(r.choice([0, 0, 1, 1, 2])):
+            if r.random() < 0.3:
+                # TableCreateStatement::primary_key sets the primary flag itself
+                cl.append("(pk (index %s))" % " ".join(self.index_clauses(None, kind="plain")))
+            else:
+                cl.append("(index (index %s))" % " ".join(self.index_clauses(False)))
+        for _ in range(r.choice([0, 0, 1, 2, 3])):
+            cl.append("(fk (fk %s))" % " ".join(self.fk_clauses()))
+        for _ in range(r.choice([0, 0, 1, 2])):
+            cl.append("(check %s)" % self.wexpr())
+        if r.random() < 0.5:
+            r.shuffle(cl)
+        return "(tcreate %s)" % " ".join(cl)
+
+    def alter_option(self):
+        r = self.r
+        k = r.random()
+        if k < 0.25:
+            return "(%s %s)" % ("addcol" if self.b == "my" or r.random() < 0.6 else "addcoline", self.coldef())
+        if k < 0.6:
+            # raw text inside a Postgres ModifyColumn would have to be a whole ALTER action: the caller's business
+            for _ in range(50):
+                cd = self.coldef(no_extra=self.b == "pg")
+                # something to modify: a type or a specification that has a rendering in the dialect
+                if cd.split(" ")[2].rstrip(")") != "-" or any(k in cd for k in ("(null)", "(notnull)", "(default ", "(unique)", "(pk)", "(check ")):
+                    return "(modcol %s)" % cd
+            return "(modcol (cd %s int))" % self.ident()
+        if k < 0.7:
+            return "(rencol %s %s)" % (self.ident(), self.ident())
+        if k < 0.8:
+            return "(dropcol %s)" % self.ident()
+        if k < 0.92:
+            return "(addfk (fk %s))" % " ".join(self.fk_clauses())
+        return "(dropfk %s)" % self.ident()
+
+    def talter(self):
+        r = self.r
+        cl = ["(table %s)" % self.tref()]
+        for _ in range(r.choice([1, 1, 2, 3, 4])):
+            cl.append(self.alter_option())
+        return "(talter %s)" % " ".join(cl)
+
+    def statement(self):
+        r = self.r
+        k = r.random()
+        if k < 0.4:
+            return self.tcreate()
+        if k < 0.64:
+            return self.talter()
+        if k < 0.74:
+            return "(icreate %s)" % " ".join(self.index_clauses(True))
+        if k < 0.78:
+            cl = ["(name %s)" % self.ident()]
+            if self.b == "my" or r.random() < 0.6:
+                t = self.tref(kind="index")
+                if self.b == "pg" and t.count(" ") > 2:
+                    t = "(t %s)" % self.ident()
+                cl.append("(table %s)" % t)
+            if self.b == "pg" and r.random() < 0.4:
+                cl.append("(ifexists)")
+            return "(idrop %s)" % " ".join(cl)
+        if k < 0.83:
+            return "(fkcreate %s)" % " ".join(self.fk_clauses(need_from=True))
+        if k < 0.86:
+            return "(fkdrop (name %s) (table %s))" % (self.ident(), self.tref(kind="fk"))
+        if k < 0.9:
+            cl = ["(table %s)" % self.tref() for _ in range(r.choice([1, 1, 2, 3]))]
+            if r.random() < 0.4:
+                cl.append("(ifexists)")
+            if r.random() < 0.4:
+                cl.append("(%s)" % r.choice(["restrict", "cascade"]))
+            return "(tdrop %s)" % " ".join(cl)
+        if k < 0.93:
+            return "(trename %s %s)" % (self.tref(), self.tref())
+        if k < 0.95:
+            return "(ttruncate %s)" % self.tref()
+        if self.b != "pg":
+            return self.talter()
+        return self.pg_statement()
+
+    def pg_statement(self):
+        r = self.r
+        k = r.random()
+        if k < 0.25:
+            cl = ["(asenum %s)" % self.typeref()]
+            for _ in range(r.choice([1, 1, 2])):
+                cl.append("(values %s)" % " ".join(hexs(self.text()) for _ in range(r.randrange(1, 4))))
+            return "(tycreate %s)" % " ".join(cl)
+        if k < 0.45:
+            cl = ["(name %s)" % self.typeref() for _ in range(r.choice([1, 1, 2]))]
+            if r.random() < 0.3:
+                cl.append("(names %s)" % " ".join(self.typeref() for _ in range(r.randrange(1, 3))))
+            if r.random() < 0.4:
+                cl.append("(ifexists)")
+            if r.random() < 0.4:
+                cl.append("(%s)" % r.choice(["cascade", "restrict"]))
+            return "(tydrop %s)" % " ".join(cl)
+        if k < 0.75:
+            cl = ["(name %s)" % self.typeref()]
+            kk = r.random()
+            if kk < 0.6:
+                cl.append("(addvalue %s)" % hexs(self.text()))
+                if r.random() < 0.5:
+                    cl.append("(%s %s)" % (r.choice(["before", "after"]), hexs(self.text())))
+                if r.random() < 0.4:
+                    cl.append("(ifnotexists)")
+            elif kk < 0.8:
+                cl.append("(renameto %s)" % hexs(self.name()))
+            else:
+                cl.append("(renamevalue %s %s)" % (hexs(self.text()), hexs(self.text())))
+            return "(tyalter %s)" % " ".join(cl)
+        if k < 0.9:
+            cl = ["(name %s)" % hexs(r.choice(["ltree", "pg_trgm", '"uuid-ossp"']))]
+            if r.random() < 0.4:
+                cl.append("(schema %s)" % hexs(r.choice(["public", "ext"])))
+            if r.random() < 0.4:
+                cl.append("(version %s)" % hexs(r.choice(["'1.1'", "v2"])))
+            for kw, p in (("cascade", 0.3), ("ifnotexists", 0.4)):
+                if r.random() < p:
+                    cl.append("(%s)" % kw)
+            r.shuffle(cl)
+            return "(extcreate %s)" % " ".join(cl)
+        cl = ["(name %s)" % hexs(r.choice(["ltree", "pg_trgm"]))]
+        if r.random() < 0.4:
+            cl.append("(ifexists)")
+        if r.random() < 0.5:
+            cl.append("(%s)" % r.choice(["cascade", "restrict"]))
+        return "(extdrop %s)" % " ".join(cl)
